@@ -1,6 +1,8 @@
+mod c16;
 mod drive;
 mod elem;
 mod fixed;
+mod gdrive;
 mod generic;
 mod interp;
 mod gen;
@@ -50,6 +52,10 @@ fn main() {
                 "C17" => drive::suite_c17(&mut ctx),
                 "C04" => qdrive::suite_c04(&mut ctx),
                 "C18" => poly::suite_c18(&mut ctx),
+                "C16" => c16::suite_c16(&mut ctx),
+                "C13" => gdrive::suite_c13(&mut ctx),
+                "C14" => gdrive::suite_c14(&mut ctx),
+                "C10G" => gdrive::suite_c10g(&mut ctx),
                 "C11" => elem::suite_c11(&mut ctx),
                 "C15" => elem::suite_c15(&mut ctx),
                 "C19" => randsuite::suite_c19(&mut ctx),
